@@ -117,6 +117,18 @@ CLAIMS = {
    note="Only the ORDER in which the SQL layer presents entries is taken from the code (comparators interpreted, LOAD_QUERY directions parsed); that the reload JSON / exported "
         "rows contain exactly the accepted entries is assumed (SQL is outside). JSON rows are modelled by uninterpreted field functions.",
    design='DESIGN.md §3 C10'),
+ 'C07': dict(
+   level='model_checking',
+   text="Merge kernel: RoomAuthorisations::prepare_room_node (check_consistency, prepare_room_with_history, prepare_auth_with_history, prepare_new_room, prepare_new_auth, "
+        "RoomNode::parse) is executed from MIR on an existing room with a symbolic history and a candidate assembled by a symbolic attacker: the old rows plus one extra row "
+        "in the admin / user-admin / user / right list that is either fresh (symbolic author, date, content) or an existing validly signed row replayed from another list, "
+        "attached by a reference whose author, date, label, source and target are symbolic; also omissions, an altered old row, and a first-seen room. z3 shows for every "
+        "accepted candidate that the old entries are still present unchanged, and that the added entry's row AND the reference placing it were authored by a key entitled "
+        "at the entry's date and designate that container, list and row. Counterexamples are replayed on the real prepare_room_node + parse.",
+   note="Three classes are genuine on the pinned tree (references are not authorship-checked: a user admin makes itself room admin) and are recorded in KNOWN_FINDINGS.json "
+        "with the reason they were not repaired; every failing obligation is reported under its own signature so a recorded class cannot hide another. Signature "
+        "verification (ideal) and JSON decoding of entry rows (uninterpreted) are outside; bounds: one extra row, single-entry histories in the quick tier.",
+   design='DESIGN.md §3 C07'),
 }
 
 NA = {
